@@ -23,6 +23,7 @@ func init() {
 			"C30.R3 MPT: dial gate (split, lookup, validate; dial the validated IP)",
 			"C30.R4 TABLE: blocked-IP predicate truth table; validators cover all answers; allow-list exit",
 			"C30.R5 MPT: URL gate before fetch; scheme/credential checks",
+			"C30.R6 shape: the allow-list key is the whole host (the normaliser only folds case and trims)",
 		},
 		Assumptions: []string{"net/http connects only through Transport.DialContext when Proxy is nil and no DialTLS* hook is set", "semantics of net.IP classifier methods"},
 	})
@@ -68,6 +69,8 @@ func runC30(c *Ctx) {
 	r.MinInst["C30.R3"] = 6
 	r.MinInst["C30.R4"] = 4
 	r.MinInst["C30.R5"] = 4
+	r.MinInst["C30.R6"] = 1
+	checkAllowListKeyIsWholeHost(c)
 
 	for id := range c30GuardedClientCtors {
 		if p.Func(id) == nil {
@@ -1113,4 +1116,60 @@ func userNilGens(fn *ssa.Function) []GenSpec {
 		}
 	})
 	return []GenSpec{{Fact: "no-credentials", edges: edge}}
+}
+
+// ---------------- C30.R6 (round 3 of seeding): the allow-list key is the whole host ----------------
+
+// checkAllowListKeyIsWholeHost: an allow-listed host skips the private-address filter, so the key under which allow-list
+// entries are stored and dialled hosts are looked up has to identify ONE host. normalizeRevocationHost may fold case, trim
+// white space and drop the trailing dot; anything that cuts the string (strings.Cut / Split / Index + slicing, a slice
+// expression) maps different hosts — every IPv6 literal with the same first group — to the same key.
+func checkAllowListKeyIsWholeHost(c *Ctx) {
+	p, r := c.P, c.R
+	fid := "pkg/pdfcpu/sign.normalizeRevocationHost"
+	fn := p.Func(fid)
+	if fn == nil {
+		r.Bad("C30.R6", fid, "anchor", "", "UNRESOLVED-ANCHOR")
+		return
+	}
+	allowed := map[string]bool{
+		"strings.ToLower": true, "strings.TrimSpace": true, "strings.TrimSuffix": true, "strings.TrimRight": true,
+		"strings.TrimPrefix": true, "strings.TrimLeft": true, "strings.Trim": true,
+		"golang.org/x/net/idna.ToASCII": true, "golang.org/x/net/idna.Lookup.ToASCII": true,
+	}
+	var bad []string
+	calls := 0
+	eachInstr(fn, func(_ *ssa.BasicBlock, _ int, i ssa.Instruction) {
+		switch x := i.(type) {
+		case *ssa.Call:
+			if _, isB := x.Call.Value.(*ssa.Builtin); isB {
+				return
+			}
+			_, ref := callRef(x)
+			calls++
+			if !allowed[ref] {
+				bad = append(bad, ref+" ("+p.Pos(x.Pos())+")")
+			}
+		case *ssa.Slice:
+			if bt, ok := x.X.Type().Underlying().(*types.Basic); ok && bt.Info()&types.IsString != 0 {
+				bad = append(bad, "a slice of the host string ("+p.Pos(x.Pos())+")")
+			}
+		}
+	})
+	// the same function is used on both sides
+	users := 0
+	for _, caller := range c.CG().In[fn] {
+		_ = caller
+		users++
+	}
+	switch {
+	case len(bad) > 0:
+		r.Bad("C30.R6", fid, "allow-list key", p.Pos(fn.Pos()), "the host normaliser does more than fold case and trim ("+strings.Join(bad, ", ")+"): it can map different hosts to one allow-list key, and an allow-listed key skips the private-address filter for every host that shares it")
+	case calls == 0:
+		r.Bad("C30.R6", fid, "allow-list key", p.Pos(fn.Pos()), "UNRESOLVED-ANCHOR: the normaliser calls nothing")
+	case users < 2:
+		r.Bad("C30.R6", fid, "allow-list key", p.Pos(fn.Pos()), "the normaliser is no longer shared by the allow-list builder and the dial gate: entries and dialled hosts are keyed differently")
+	default:
+		r.OK("C30.R6", fid, "allow-list key", p.Pos(fn.Pos()), fmt.Sprintf("%d canonicalising calls (case folding, trimming), shared by the allow-list builder and the dial gate", calls), true)
+	}
 }
